@@ -6,7 +6,7 @@ distribution in the evidence.  The `avoid` set names ledger entries (known findi
 whose shapes a profile must not produce, e.g. {"F13", "F14", "F23", "F24"}.
 """
 
-OPEN_FINDINGS = {"F13", "F14", "F23", "F24", "F3", "F4", "F5", "F6", "F7"}
+OPEN_FINDINGS = {"F13", "F14", "F23", "F24", "F25", "F26", "F27", "F3", "F4", "F5", "F6", "F7"}
 
 NUMS = ["0", "1", "2", "3", "7", "10", "255", "0.5", "1.5", "2.25", "100", "1000000", "3.75", "12345.678"]
 STRS = ['""', '"a"', '"ab"', '"héllo"', '"x y"', '"€"', '"😀z"', '"12"', '"3.5"']
@@ -387,11 +387,23 @@ class G:
         return lines
 
     def try_block(self, depth, in_fn, in_loop):
+        self.try_depth = getattr(self, "try_depth", 0) + 1
+        try:
+            return self._try_block(depth, in_fn, in_loop)
+        finally:
+            self.try_depth -= 1
+
+    def _try_block(self, depth, in_fn, in_loop):
         has_catch = self.r.chance(3, 4)
         has_finally = (not has_catch) or self.r.chance(1, 2)
+        wrap = (not has_catch) or self.r.chance(1, 2)
         lab = self.fresh("T")
         body = ['print("%s:try");' % lab]
+        if wrap:
+            self.try_depth += 1     # the statement is wrapped in one more try below
         body += self.exc_stmts(depth - 1, in_fn, in_loop, in_try=True)
+        if wrap:
+            self.try_depth -= 1
         out = ["try {"] + ind(body)
         if has_catch:
             cb = ['print("%s:catch " + show(e));' % lab]
@@ -409,7 +421,7 @@ class G:
                 fb = ["var fl = 1;"] + fb + ["print(fl);"]
             out += ["} finally {"] + ind(fb)
         out += ["}"]
-        if not has_catch or self.r.chance(1, 2):
+        if wrap:
             # make sure a propagating exception is caught somewhere so the program continues
             out = ["try {"] + ind(out) + ["} catch e {", '    print("%s:outer " + show(e));' % lab, "}"]
         return out
@@ -428,14 +440,16 @@ class G:
             elif k == 3 and depth > 0:
                 self.tag("fn-in-try")
                 f = self.fresh("g")
+                saved, self.try_depth = getattr(self, "try_depth", 0), 0
                 body = self.exc_stmts(depth - 1, True, False, False)
+                self.try_depth = saved
                 out += ["fn %s() {" % f] + ind(body) + ["    return \"%s-ret\";" % f, "}", "print(%s());" % f]
             elif k == 4 and depth > 0:
                 self.tag("loop-in-try")
                 c = self.fresh("i")
                 body = self.exc_stmts(depth - 1, in_fn, True, False)
                 out += ["for %s in 0..2 {" % c] + ind(['print("it " + String.from(%s));' % c] + body) + ["}"]
-            elif k == 5 and in_fn and not (in_try and False):
+            elif k == 5 and in_fn and not ("F27" in self.avoid and getattr(self, "try_depth", 0) >= 2):
                 self.tag("return-in-try" if in_try else "return")
                 out.append('if true { return "early"; }')
             elif k == 6 and in_loop and not (in_try and "F13" in self.avoid):
